@@ -14,7 +14,7 @@ func checkC02(c *Ctx, r *Report) {
 	r.Explanation = "W-SE: for every registered box type and every configuration of its discriminants, the symbolic number of bits EncodeSW writes on the decoded abstract structure equals 8*Size() as polynomials " +
 		"over the symbolic counts/lengths, and the header item carries Size() of the same box; T-WRAP: every Encode wrapper allocates exactly int(recv.Size()), encodes the same receiver into it, checks the error and writes sw.Bytes(); " +
 		"S-MEMBER: Size/Encode/EncodeSW of the composites (File, InitSegment, MediaSegment, Fragment) traverse the same members. " +
-		"L-MAKEAPPEND: no slice in package mp4 is made with a non-zero length and then only appended to (the decoded box would hold zero entries in front of the real ones, counted by Size() but not what the encoder writes); S-SIZEDEP (also for the boxes W-SE tables as irregular): every receiver field that T.Size() reads, directly or through methods on the same receiver, is also read by T.EncodeSW apart from its own Size() call for the header (three listed exceptions); DEP: writeDescriptorSize writes as many size bytes as sizeFieldSizeMinus1 says (what SizeSize() counts), whatever the size value; DEP: bits.FixedSliceWriter.WriteString (modelled by the layout engine as len(s) bytes plus one when the flag is set) writes the terminating zero under a test of its flag parameter itself; O-CLEAN: a trial parser (bool result, run once per candidate on the same box: SencBox.parseAndFillSamples) resets every receiver field it grows with append on every path that may return false (leftovers are walked by Size()/EncodeSW); T-LIVE: Size() of every box type that holds children depends on the Children it holds now (no cached size); W-NARROW: in the functions reachable from the size methods no product of two non-constant values is computed in 32 bits or fewer and only then widened. Decides agreement of the size function with the encoder per configuration; does not decide irregular boxes, numeric loop bounds, or idempotence of encodes that mutate state."
+		"L-MAKEAPPEND: no slice in package mp4 is made with a non-zero length and then only appended to (the decoded box would hold zero entries in front of the real ones, counted by Size() but not what the encoder writes); S-SIZEDEP (also for the boxes W-SE tables as irregular): every receiver field that T.Size() reads, directly or through methods on the same receiver, is also read by T.EncodeSW apart from its own Size() call for the header (three listed exceptions); L-DEADAPPEND: the result of every append in package mp4 is used (a child list rebuilt in a local and never assigned back leaves File.Children, which Size() sums, without the new box); DEP: writeDescriptorSize writes as many size bytes as sizeFieldSizeMinus1 says (what SizeSize() counts), whatever the size value; DEP: bits.FixedSliceWriter.WriteString (modelled by the layout engine as len(s) bytes plus one when the flag is set) writes the terminating zero under a test of its flag parameter itself; O-CLEAN: a trial parser (bool result, run once per candidate on the same box: SencBox.parseAndFillSamples) resets every receiver field it grows with append on every path that may return false (leftovers are walked by Size()/EncodeSW); T-LIVE: Size() of every box type that holds children depends on the Children it holds now (no cached size); W-NARROW: in the functions reachable from the size methods no product of two non-constant values is computed in 32 bits or fewer and only then widened. Decides agreement of the size function with the encoder per configuration; does not decide irregular boxes, numeric loop bounds, or idempotence of encodes that mutate state."
 	wireAssumptions(r)
 	ruleWSE(c, r)
 	ruleTWRAP(c, r)
@@ -23,6 +23,12 @@ func checkC02(c *Ctx, r *Report) {
 	}
 	ruleSMEMBER(c, r)
 	ruleTerminatorFlag(c, r)
+	if n := ruleDeadAppend(c, r, func(f *ssa.Function) bool { return strings.HasPrefix(SSAFuncName(f), "mp4.") }); n < 100 {
+		r.Undecided("L-DEADAPPEND", "scope", "", fmt.Sprintf("only %d appends found in package mp4", n))
+	} else {
+		r.OK("L-DEADAPPEND", "scope", "", fmt.Sprintf("%d appends in package mp4, the result of each is used", n))
+	}
+	requireFixture(r, "L-DEADAPPEND", "insertLost", func(fc *Ctx, s *Report) { ruleDeadAppend(fc, s, nil) })
 	ruleDescriptorSizeBytes(c, r)
 	if n := ruleSizeDependsEncoded(c, r, map[string]bool{"mp4": true, "avc": true, "hevc": true, "av1": true}); n < 100 {
 		r.Undecided("S-SIZEDEP", "scope", "", fmt.Sprintf("only %d types with Size and EncodeSW found", n))
